@@ -221,7 +221,7 @@ func CheckExec(prop, tier string) int {
 			seeds = append(seeds, uint64(seed)*1000003+uint64(i)*97+uint64(s)+1)
 		}
 		gates := gatesFor(p)
-		if tier == "thorough" && p.N > 0 && i%2 == 0 {
+		if p.N > 0 && (p.AcqGate || (tier == "thorough" && i%2 == 0)) {
 			// also let the harness decide the order in which tasks take their concurrency slot
 			gates = append(gates, "acquire")
 		}
